@@ -1402,7 +1402,7 @@ func (x *Exec) assumeLoopHyps(st *State, fr *Frame, l *Loop) {
 
 func (x *Exec) recordLoopHead(st *State, fr *Frame, l *Loop) {
 	fc := x.contractOfFrame(fr)
-	if fc == nil || len(fc.LoopStep[l.Ordinal]) == 0 {
+	if fc == nil || (len(fc.LoopStep[l.Ordinal]) == 0 && len(fc.Asserts) == 0) {
 		return
 	}
 	nh := map[string]*State{}
